@@ -158,6 +158,34 @@ theorem intake_pend (a : A) (T : Int) : (a.intake T).pend = [] := by
   show a.drain.requeueYielder.pend = []
   rw [requeue_pend]; exact (aframe_drain a).2
 
+/-! ## the earliest due time -/
+
+theorem minDue_none {l : Sl} (h : minDue l = none) : l = [] := by
+  rw [minDue_eq_head] at h
+  cases hs : sortByDue l with
+  | nil => exact sortByDue_eq_nil.mp hs
+  | cons x xs => rw [hs] at h; cases h
+
+/-- `minDue` is a pending due time and no pending due time is earlier -/
+theorem minDue_some {l : Sl} {D : Int} (h : minDue l = some D) : (∃ f, (f, D) ∈ l) ∧ ∀ x ∈ l, D ≤ x.2 := by
+  rw [minDue_eq_head] at h
+  cases hs : sortByDue l with
+  | nil => rw [hs] at h; cases h
+  | cons x xs =>
+    rw [hs] at h
+    simp only [List.head?_cons, Option.map_some, Option.some.injEq] at h
+    have hx : x ∈ l := mem_sortByDue.mp (hs ▸ List.mem_cons_self)
+    have hsorted := sorted_sortByDue l
+    rw [hs] at hsorted
+    unfold Sorted at hsorted
+    rw [List.pairwise_cons] at hsorted
+    refine ⟨⟨x.1, by rw [← h]; exact hx⟩, ?_⟩
+    intro y hy
+    have hy' : y ∈ x :: xs := hs ▸ mem_sortByDue.mpr hy
+    rcases List.mem_cons.mp hy' with e | e
+    · rw [e, ← h]; exact Int.le_refl _
+    · rw [← h]; exact hsorted.1 y e
+
 /-! ## stability of the sort -/
 
 theorem foldl_ins_const {D : Int} : ∀ (l acc : Sl), (∀ x ∈ acc, x.2 = D) → (∀ x ∈ l, x.2 = D) →
